@@ -33,6 +33,7 @@ type Item struct {
 	Class  string // post | pre | inv | bounds | nil | ovf | ghost | xpost | dec | canary
 	Src    string // contract clause or source snippet
 	Lemmas []string
+	Blk    *ssa.BasicBlock
 }
 
 // State maps state keys (cell components, heap maps, iterators, ghost) to SMT terms.
@@ -126,6 +127,7 @@ type Enc struct {
 	privateCells []*ssa.Alloc
 	privateFVs []*ssa.FreeVar
 	dynType    map[string]types.Type
+	fieldPtrs  map[string]lvalue
 }
 
 type lvalue struct {
@@ -146,7 +148,7 @@ func NewEnc(w *World, fn *ssa.Function, key string, spec *FuncSpec) *Enc {
 		cellName: map[string][]*ssa.Alloc{}, regs: map[ssa.Value]Val{}, addrs: map[ssa.Value]lvalue{}, used: map[string]bool{},
 		usedTrusted: map[string]bool{}, loops: map[*ssa.BasicBlock]*loopInfo{}, inEdges: map[*ssa.BasicBlock][]edge{},
 		counters: map[string]int{}, iterStr: map[ssa.Value]Val{}, closures: map[ssa.Value]*ssa.MakeClosure{},
-		tupleOf: map[ssa.Value][]Val{}, callOrd: map[string]int{}, freeVars: map[*ssa.FreeVar]lvalue{}, paramVals: map[string]Val{}, usedLemmas: map[string]bool{}, implUsed: map[string]types.Type{}, iterMap: map[ssa.Value]Val{}, closureOf: map[string]*ssa.MakeClosure{}, lateBlocks: map[*ssa.BasicBlock]bool{}, ghostUsed: map[int]bool{}, dynType: map[string]types.Type{}}
+		tupleOf: map[ssa.Value][]Val{}, callOrd: map[string]int{}, freeVars: map[*ssa.FreeVar]lvalue{}, paramVals: map[string]Val{}, usedLemmas: map[string]bool{}, implUsed: map[string]types.Type{}, iterMap: map[ssa.Value]Val{}, closureOf: map[string]*ssa.MakeClosure{}, lateBlocks: map[*ssa.BasicBlock]bool{}, ghostUsed: map[int]bool{}, dynType: map[string]types.Type{}, fieldPtrs: map[string]lvalue{}}
 }
 
 func (e *Enc) freshName(prefix string) string {
@@ -216,10 +218,10 @@ func (e *Enc) typeFacts(v Val) string {
 			return and(app("<=", lo, v.C[0]), app("<=", v.C[0], hi))
 		}
 		if u.Info()&types.IsString != 0 {
-			return and(app("<=", "0", v.C[1]), app("<=", "0", v.C[2]), app("<=", v.C[2], "maxlen"))
+			return and(app("<=", "0", v.C[1]), app("<=", "0", v.C[2]), app("<=", v.C[2], "maxcap"))
 		}
 	case *types.Slice:
-		return and(app("<=", "0", v.C[1]), app("<=", "0", v.C[2]), app("<=", v.C[2], v.C[3]), app("<=", v.C[3], "maxlen"),
+		return and(app("<=", "0", v.C[1]), app("<=", "0", v.C[2]), app("<=", v.C[2], v.C[3]), app("<=", v.C[3], "maxcap"),
 			imp(eq(v.C[0], "0"), and(eq(v.C[2], "0"), eq(v.C[3], "0"))), app("<=", "0", v.C[0]))
 	case *types.Pointer, *types.Map, *types.Chan, *types.Signature:
 		return app("<=", "0", v.C[0])
@@ -314,6 +316,10 @@ func (e *Enc) lookupLocal(c *Ctx, name string) (Val, bool) {
 // ---------- heap ----------
 
 func typeKey(t types.Type) string {
+	if b, ok := t.(*types.Basic); ok {
+		// byte/uint8 and rune/int32 are the same type
+		return types.Typ[b.Kind()].Name()
+	}
 	if n, ok := t.(*types.Named); ok {
 		if n.Obj().Pkg() != nil {
 			return n.Obj().Pkg().Name() + "." + n.Obj().Name()
@@ -470,6 +476,9 @@ func (e *Enc) bytesOf(st *State, v Val) Val {
 func ptrKey(t types.Type, j int) string { return fmt.Sprintf("p:%s:%d", typeKey(t), j) }
 
 func (e *Enc) loadPtr(st *State, elemT types.Type, ref string) Val {
+	if lv, ok := e.fieldPtrs[ref]; ok {
+		return e.loadField(st, lv.stT, lv.fidx, lv.obj)
+	}
 	if s, ok := elemT.Underlying().(*types.Struct); ok {
 		v := Val{T: elemT}
 		for i := 0; i < s.NumFields(); i++ {
@@ -486,6 +495,10 @@ func (e *Enc) loadPtr(st *State, elemT types.Type, ref string) Val {
 }
 
 func (e *Enc) storePtr(st *State, elemT types.Type, ref string, v Val) {
+	if lv, ok := e.fieldPtrs[ref]; ok {
+		e.storeField(st, lv.stT, lv.fidx, lv.obj, v)
+		return
+	}
 	if s, ok := elemT.Underlying().(*types.Struct); ok {
 		for i := 0; i < s.NumFields(); i++ {
 			lo, hi := fieldRange(s, i)
@@ -533,6 +546,28 @@ type funcResult struct {
 	Outside   string // non-empty: function left the subset
 	NLoops    int
 	Trusted   []string
+}
+
+// inputBound: lengths of inputs and of dependency results are at most maxlen (T3).
+func (e *Enc) inputBound(v Val) string {
+	switch u := v.T.Underlying().(type) {
+	case *types.Basic:
+		if u.Info()&types.IsString != 0 {
+			return app("<=", v.C[2], "maxlen")
+		}
+	case *types.Slice:
+		return app("<=", v.C[3], "maxlen")
+	case *types.Tuple:
+		var fs []string
+		lo := 0
+		for i := 0; i < u.Len(); i++ {
+			n := len(flatten(u.At(i).Type()))
+			fs = append(fs, e.inputBound(Val{u.At(i).Type(), v.C[lo : lo+n]}))
+			lo += n
+		}
+		return and(fs...)
+	}
+	return "true"
 }
 
 func (e *Enc) backEdge(from, to *ssa.BasicBlock) bool {
@@ -688,7 +723,9 @@ func (e *Enc) Encode() {
 	fn := e.fn
 	e.decl("strk", SArr)
 	e.decl("maxlen", SInt)
-	e.def("(= maxlen 4611686018427387904)")
+	e.def("(= maxlen 2305843009213693952)") // 2^61: assumed bound on the length of any input or dependency result (T3)
+	e.decl("maxcap", SInt)
+	e.def("(= maxcap 4611686018427387904)") // 2^62: proved bound on every length the code itself produces
 	e.findLoops()
 	// loops must have invariants
 	for _, li := range e.loops {
@@ -711,6 +748,7 @@ func (e *Enc) Encode() {
 		v := e.freshVal("in."+p.Name(), p.Type())
 		e.regs[p] = v
 		e.assume("true", e.typeFacts(v))
+		e.assume("true", e.inputBound(v))
 		if i < len(names) && names[i] != "" {
 			e.paramVals[names[i]] = v
 		}
@@ -995,7 +1033,7 @@ func (e *Enc) addEdge(from, to *ssa.BasicBlock, guard string, st *State) {
 			m := c.intT(li.spec.Dec.Expr)
 			e.assert(guard, fmt.Sprintf("loop%d.decreases%s", li.ord, sfx), "dec", and(app("<=", "0", li.decH), app("<", m, li.decH)), li.spec.Dec.Src, pos)
 		}
-		e.items = append(e.items, Item{Kind: IAssert, Guard: guard, Term: "false", Name: fmt.Sprintf("%s#canary.loop%d.body%s", e.key, li.ord, sfx), Canary: true, Class: "canary"})
+		e.items = append(e.items, Item{Kind: IAssert, Guard: guard, Term: "false", Name: fmt.Sprintf("%s#canary.loop%d.body%s", e.key, li.ord, sfx), Canary: true, Class: "canary", Blk: from})
 		return
 	}
 	e.inEdges[to] = append(e.inEdges[to], edge{guard: guard, st: st.clone(), from: from})
@@ -1006,6 +1044,7 @@ func (e *Enc) finish() {
 	fn := e.fn
 	results := fn.Signature.Results()
 	if len(e.exits) > 0 {
+		sort.SliceStable(e.exits, func(i, j int) bool { return e.exits[i].from.Index < e.exits[j].from.Index })
 		var in []edge
 		// results become pseudo state keys so that merge handles them
 		for _, ex := range e.exits {
@@ -1023,9 +1062,26 @@ func (e *Enc) finish() {
 			_ = k
 		}
 		for i, ex := range e.exits {
-			e.items = append(e.items, Item{Kind: IAssert, Guard: ex.guard, Term: "false", Name: fmt.Sprintf("%s#canary.return%d", e.key, i+1), Canary: true, Class: "canary"})
+			var pos token.Pos
+			if ex.from != nil {
+				for _, ins := range ex.from.Instrs {
+					if r, ok := ins.(*ssa.Return); ok {
+						pos = r.Pos()
+					}
+				}
+			}
+			e.items = append(e.items, Item{Kind: IAssert, Guard: ex.guard, Term: "false", Name: fmt.Sprintf("%s#canary.return%d", e.key, i+1), Canary: true, Class: "canary", Pos: pos, Blk: ex.from})
 		}
 		g, st := e.merge("exit", in)
+		for i := 0; i < results.Len(); i++ {
+			v := Val{T: results.At(i).Type()}
+			for j := range flatten(v.T) {
+				v.C = append(v.C, st.m[fmt.Sprintf("r:%d:%d", i, j)])
+			}
+			if e.spec != nil && i < len(e.spec.Results) {
+				e.paramVals[e.spec.Results[i].Name] = v
+			}
+		}
 		xb := &blockState{e: e, b: e.fn.Blocks[0], g: g, st: st}
 		xb.ghostAt("exit", e.fn.Blocks[0].Instrs[0], nil)
 		g = xb.g
